@@ -13,6 +13,8 @@
 (*                    the trace, re-read after this step]                  *)
 (* Numbers coming from the solver are fixed point: [k, i] with k = "num"   *)
 (* and i = round(value * 10^6), or k in {"nan","pinf","ninf","big","none"}.*)
+(* A call that killed the driver's worker process (native abort) is an     *)
+(* event with obs.raises = "crash"; it is judged like any other outcome.   *)
 (* One TLC state per consumed event.  The expected values are computed     *)
 (* from the instance with FluxLatticeOps; every failing clause is named in *)
 (* a JSON verdict line together with root-cause tags computed from spec    *)
@@ -355,10 +357,15 @@ AddLooplessClauses(ev) ==
             \cup If(~FxInBounds(m, v) \/ ~FxBalanced(m, v), "feasible")
             \cup If(~Near(o.sol.obj.i, FxObjOf(m, v), FxObjTol(m)), "objective_is_c_dot_v")
             \cup If(~LooplessWrt(Cycles(m), SignVec(v)), "reported_solution_has_cycle")
+\* add_loopless takes max |bound| both as the big-M of the fluxes and as the range [1, M] of the free-energy
+\* proxies; a cycle of length k needs proxies up to k - 1
+MaxAbsBound(m) == SetMax({FinMag(m, r) : r \in RIdx(m)})
+MaxCycleLen(m) == SetMax({Cardinality({r \in RIdx(m) : z[r] # 0}) : z \in Cycles(m)})
 AddLooplessTags(ev) ==
   LET m == cur IN
   IF C17Scope(m) # "in" THEN {C17Scope(m)}
   ELSE If(Loopless(m) = {}, "no_loop_free_vector") \cup If(ObjInCycle(m), "objective_in_internal_cycle")
+       \cup If(MaxAbsBound(m) < MaxCycleLen(m) - 1, "proxy_range_below_cycle_length_minus_1")
        \cup If(m.dir = "min", "minimising")
        \cup If(\E r \in RIdx(m) : m.lb[r] > 0 \/ m.ub[r] < 0, "forced_flux")
 
@@ -413,7 +420,7 @@ Tags(ev, A) ==
     [] OTHER -> {}
 
 Undecided(ev, A) ==
-  CASE ev.step.op = "optimize" -> ~A.dec
+  CASE ev.step.op = "optimize" -> Traces[tid].prop = "C04" /\ ~A.dec
     [] ev.step.op = "slim" -> ~A.dec
     [] ev.step.op = "access" -> last.valid /\ ~last.info.dec
     [] ev.step.op = "fva" -> A.scope \notin {"in", "no_optimum"} \/ (A.scope = "in" /\ A.e.mode # "exact")
@@ -422,6 +429,15 @@ Undecided(ev, A) ==
                                             \/ (ev.obs.raises = "none" /\ AllNum(ev.obs.sol.fluxes) /\ ~IsIntegral(Vals(ev.obs.sol.fluxes)))
     [] ev.step.op = "add_loopless" -> C17Scope(cur) # "in"
     [] OTHER -> FALSE
+
+UndecidedWhy(ev, A) ==
+  CASE ev.step.op = "fva" -> IF A.scope # "in" THEN A.scope ELSE A.e.why
+    [] ev.step.op \in {"blocked", "fastcc"} -> C19Scope(cur)
+    [] ev.step.op \in {"loopless_solution", "add_loopless"} ->
+         IF C17Scope(cur) # "in" THEN C17Scope(cur)
+         ELSE IF ev.step.op = "loopless_solution" /\ ev.step.start # "none" /\ ev.obs.raises # "crash" /\ ~StartOK(cur, ev.obs.start)
+         THEN "start_vector_not_optimal" ELSE "returned_vector_not_integral"
+    [] OTHER -> "not_unit_network"
 
 \* ---------------------------------------------------------------- the trace machine
 Init ==
@@ -443,7 +459,8 @@ Next ==
                           clauses |-> cl, tags |-> tg, step |-> ev.step,
                           unexplained |-> IF "unexplained" \in tg THEN 1 ELSE 0,
                           obsraises |-> IF "raises" \in DOMAIN ev.obs THEN ev.obs.raises ELSE "n/a"]))
-     /\ Undecided(ev, A) => PrintT(ToJson([verdict |-> "UNDECIDED", tid |-> Traces[tid].tid, l |-> l + 1, op |-> ev.step.op]))
+     /\ Undecided(ev, A) => PrintT(ToJson([verdict |-> "UNDECIDED", tid |-> Traces[tid].tid, l |-> l + 1, op |-> ev.step.op,
+                                           why |-> UndecidedWhy(ev, A)]))
      \* continue from the logged state
      /\ cur' = LoggedModel(cur, ev.model)
      /\ sols' = IF ev.step.op = "optimize" /\ ev.obs.raises = "none" THEN Append(ev.snaps, ev.obs.sol) ELSE ev.snaps
